@@ -646,11 +646,16 @@ func init() {
 		ID:    "C01",
 		Level: "exploration",
 		Rule: "reader cases: a random ground-truth cue list (0..6 cues, times in [0,100h) at 1 ms biased to carries, 1..4 lines, 1..4 styled runs over a hostile alphabet: BMP/astral/combining/RTL, &, <, >, NBSP, literal &amp;/&lt;, tag look-alikes) rendered 4 ways (EOL LF/CRLF/CR, BOM, index present/absent/garbage, 1..3 blank lines between cues, -1..3 at EOF, ',' or '.', 1..3 fraction digits, 1- or 2-digit hours, 5 arrow spacings, trailing coordinates, tag case, quoted/single-quoted/unquoted colour, tags closed per run / nested across runs and lines / left open at the end of the cue, minimal or full escaping) and read by the library; the projection of the result must equal the model rune by rune (text + bold/italic/underline/colour), to the millisecond. " +
-			"writer cases: the same models built from the public types, written, then decoded by the harness's own SubRip decoder and by the library reader; both must equal the model and the cue numbers must be 1..n. distinct_nontrivial = distinct documents compared.",
+			"writer cases: the same models built from the public types, written, then decoded by the harness's own SubRip decoder and by the library reader; both must equal the model and the cue numbers must be 1..n. sweep cases: every block of 256 code points (quick: the BMP and one block per other plane; thorough: all 4352 blocks) written as cue text, 32 characters to a cue, and read back unchanged (white space, controls and the markup characters of the format left out). distinct_nontrivial = distinct documents compared.",
 		Assumptions: []string{"no white space at line edges, no white-space-only runs, no blank lines inside a cue, no line terminators or '-->' in text (the property's quantifier)", "a literal '<' is left raw only before a space, a tab or a digit"},
-		Cases:       func(tier string) int64 { return 2 * n(tier) },
+		Cases:       func(tier string) int64 { return 2*n(tier) + sweepBlocks(tier) },
 		Anchors:     []string{"ReadFromSRT", "parseTextSrt", "parseDurationSRT", "WriteToSRT", "Line.srtBytes", "LineItem.srtBytes", "newScanner", "escapeHTML", "unescapeHTML"},
 		Run: func(c *fw.Ctx) fw.Outcome {
+			if k := c.Idx - 2*n(c.Tier); k >= 0 {
+				return sweepCase(c, k, "srt", "<>&",
+					func(s *astisub.Subtitles, b *bytes.Buffer) error { return s.WriteToSRT(b) },
+					func(b []byte) (*astisub.Subtitles, error) { return astisub.ReadFromSRT(bytes.NewReader(b)) })
+			}
 			if c.Idx < n(c.Tier) {
 				return c01Reader(c)
 			}
